@@ -136,6 +136,8 @@ struct Gen {
                 p.qos = (uint8_t)rng.below(3); p.retain = rng.chance(1, 3); p.dup = p.qos && rng.chance(1, 4);
                 p.topic = topic(); if (p.qos) p.pid = pid();
                 p.props = props(PUBLISH, mask);
+                // an established Topic Alias stands for the name: MQTT 5 then permits (and brokers send) a zero-length Topic Name
+                for (auto& x : p.props) if (x.id == 0x23 && rng.chance(1, 2)) p.topic.clear();
                 p.payload = payload();
                 break;
             case PUBACK: case PUBREC: case PUBREL: case PUBCOMP:
